@@ -178,6 +178,11 @@ class Sim:
         if k == "accept":
             s = op[1]
             c = H[s][1]
+            if not self.chans[c]["q"]:
+                # the client connected and every sender is gone without a message: accept fails, the server is consumed
+                H[s] = ("G",)
+                self.gc()
+                return "QDisconnected"
             data, rights = self.chans[c]["q"].pop(0)
             H[s] = ("G",)
             H.append(("R", c))
@@ -216,6 +221,8 @@ def gen_program(rng, nops, max_chans=6, max_queue=40, p_poison=0.08):
         if conn:
             choices += ["connect"] * 2
         acc = [s for s in srv if sim.handles[s][2] and sim.chans[sim.handles[s][1]]["q"] and sim.chans[sim.handles[s][1]]["q"][0][0] >= 0]
+        # ... or a server whose client connected and left without sending: no sender reference exists anywhere, nothing is queued
+        acc += [s for s in srv if sim.handles[s][2] and not sim.chans[sim.handles[s][1]]["q"] and sim.refs(("S", sim.handles[s][1])) == 0]
         if acc:
             choices += ["accept"] * 3
         alive = tx + rx + mem + sets + srv
